@@ -355,6 +355,13 @@ theorem div128_all :
     div128Radices = (List.range 35).map (· + 2) ∧ ((List.range 35).all fun i => IntSteps.div128Ok (i + 2)) = true :=
   IntSteps.div128_all
 
+/-- the identity behind the `n < fast` branch of `fast_u128_divrem`: when `2^s ∣ d`,
+`(n >> s) / (d >> s) = n / d` (and `n < 2^(64+s)` makes `n >> s` fit a `u64`) -/
+theorem fast_shift_identity (n d s : Nat) (h : 2 ^ s ∣ d) : n / 2 ^ s / (d / 2 ^ s) = n / d := by
+  rw [Nat.div_div_eq_div_mul, Nat.mul_div_cancel' h]
+
+example : (10 ^ 19 + 12345) / 2 ^ 19 / (10 ^ 19 / 2 ^ 19) = (10 ^ 19 + 12345) / 10 ^ 19 := by decide
+
 /-- R probes: the compiled `u128_divrem(n, r)` returns `(n / r^step, n % r^step)` on ≥ 30 probes per radix -/
 theorem u128_divrem_probes : allIdx IntSteps.divremOk 0 IntSteps.divremRows = true
     ∧ u128DivremRadixList.length = u128DivremNList.length ∧ u128DivremNList.length = u128DivremQuotList.length
